@@ -104,6 +104,10 @@ def descriptors() -> dict[str, NodeV]:
         "Create", "stmt", kind=Const("TABLE"),
         this=node("Schema", this=table("T"), expressions=Lst([coldef("A", "VARCHAR", 10)])),
         properties=node("Properties", expressions=Lst([node("SchemaCommentProperty", this=lit(Sym("comment", typ="str", truthy=True)))])))
+    d["CREATE OR REPLACE TABLE empty comment"] = node(
+        "Create", "stmt", kind=Const("TABLE"), replace=Const(True),
+        this=node("Schema", this=table("T"), expressions=Lst([coldef("A", "BIGINT")])),
+        properties=node("Properties", expressions=Lst([node("SchemaCommentProperty", this=lit(""))])))
     d["CREATE TABLE props no comment"] = node(
         "Create", "stmt", kind=Const("TABLE"),
         this=node("Schema", this=table("T"), expressions=Lst([coldef("A", "BIGINT")])),
@@ -117,6 +121,9 @@ def descriptors() -> dict[str, NodeV]:
     d["CREATE SCHEMA"] = node("Create", "stmt", kind=Const("SCHEMA"), this=table(None, "S"))
     d["CREATE DATABASE"] = node("Create", "stmt", kind=Const("DATABASE"), this=table("D"))
     d["CREATE DATABASE IF NOT EXISTS"] = node("Create", "stmt", kind=Const("DATABASE"), this=table("D"), exists=Const(True))
+    d["CREATE TRANSIENT DATABASE"] = node("Create", "stmt", kind=Const("DATABASE"), this=table("D"),
+                                          properties=node("Properties", expressions=Lst([node("TransientProperty")])))
+    d["CREATE OR REPLACE DATABASE"] = node("Create", "stmt", kind=Const("DATABASE"), this=table("D"), replace=Const(True))
     d["CREATE SEQUENCE"] = node("Create", "stmt", kind=Const("SEQUENCE"), this=table("SEQ"))
     d["CREATE TAG"] = node("Create", "stmt", kind=Const("TAG"), this=ident("TG"))
     d["DROP TABLE"] = node("Drop", "stmt", kind=Const("TABLE"), this=table("T"))
@@ -375,7 +382,7 @@ class FullHooks(ExecHooks):
 
     def obj_method(self, I, recv, name, args, kwargs, site):
         if recv.kind == "match" and name == "group":
-            return Sym("$residual", typ="str", truthy=True)
+            return Str(["$", Sym("RESIDUAL_NAME", typ="str", truthy=True)])  # the text of a reference: `$` + a name
         return NotImplemented
 
     def external(self, I, d, args, kwargs, site):
@@ -386,9 +393,14 @@ class FullHooks(ExecHooks):
         if d in ("re.match", "re.search", "re.fullmatch") and self.nop_match is not None and not (I.callstack and "variables" in I.callstack[-1]):
             self.nop_calls.append((d, args, kwargs, site))
             I.effect("call", d, args, kwargs, site)
+            pat = args[0] if args else None
+            if isinstance(pat, Const) and pat.v == "" and d in ("re.match", "re.search"):
+                return Obj("nop_match", kind="match")  # the empty pattern matches every text
             return Obj("nop_match", kind="match") if self.nop_match else Const(None)
         if d in ("re.search", "re.findall", "re.finditer") and self.undefined_var is not None and I.callstack and "variables" in I.callstack[-1]:
             I.effect("call", d, args, kwargs, site)
+            if d in ("re.findall", "re.finditer"):
+                return Lst([Obj("residual_match", kind="match")] if self.undefined_var else [])
             return Obj("residual_match", kind="match") if self.undefined_var else Const(None)
         return super().external(I, d, args, kwargs, site)
 
